@@ -463,16 +463,17 @@ def shapes(tier, seed):
         canary=True)
 
     # ---- (f) Gate.__eq__
-    pole = dict(mod_range=(-3, 3))
+    pole = dict(mod_range=(-5, 5))
     for nm in ROT1 + CROT + ("XX",):
         tg = [0, 2] if nm == "XX" else 2
         ct = 0 if nm[0] == "C" else None
-        add(f"gate_eq/{nm}", h_gate_eq, dict(n1=nm, n2=nm, tg=tg, ct=ct, p1="a", p2="b", rng=(-4, 4) if q else (-6, 6)), policy=pole)
-    add("gate_eq/CRX/multi-control", h_gate_eq, dict(n1="CRX", n2="CRX", tg=1, ct=[0, 3], p1="a", p2="b"), policy=pole)
+        # second parameter b = a + d (a surjective re-parameterisation of the pair (a, b): G(a) G(b)^dagger depends on d only)
+        add(f"gate_eq/{nm}", h_gate_eq, dict(n1=nm, n2=nm, tg=tg, ct=ct, p1="a", p2="a+d", rng=(-3, 3) if q else (-4, 4)), policy=pole)
+    add("gate_eq/CRX/multi-control", h_gate_eq, dict(n1="CRX", n2="CRX", tg=1, ct=[0, 3], p1="a", p2="a+d", rng=(-3, 3)), policy=pole)
     add("gate_eq/RX/const", h_gate_eq, dict(n1="RX", n2="RX", tg=0, ct=None, p1="a", p2=0.3 + 2 * math.pi), policy=pole)
     add("gate_eq/CNOT-CX", h_gate_eq, dict(n1="CNOT", n2="CX", tg=1, ct=0, p1=None, p2=None), policy=pole)
     add("gate_eq/RX-RY", h_gate_eq, dict(n1="RX", n2="RY", tg=1, ct=None, p1="a", p2="a"), policy=pole)
-    add("canary/gate_eq/RX", h_gate_eq, dict(n1="RX", n2="RX", tg=0, ct=None, p1="a", p2="b", canary=True), policy=pole, canary=True)
+    add("canary/gate_eq/RX", h_gate_eq, dict(n1="RX", n2="RX", tg=0, ct=None, p1="a", p2="a+d", rng=(-3, 3), canary=True), policy=pole, canary=True)
 
     # ---- (d) structural operations
     s1 = [("RX", (1,), None, "a"), ("CNOT", (8,), (1,), None), ("RZ", (8,), None, "b")]
